@@ -150,9 +150,7 @@ def acl_for(rnd, tree, protect=()):
     return out
 
 
-@st.composite
-def _cases(draw):
-    rnd = draw(urandoms())
+def _gen_from(rnd):
     vendor = rnd.choice(["huawei", "cisco"])
     gens = []
     for i in range(rnd.randint(1, 3)):
@@ -169,6 +167,16 @@ def _cases(draw):
         gens.append({"prog": prog, "acl": acl, "acl_indent": rnd.choice([0, 0, 4, 8, 12])})
     return {"vendor": vendor, "gens": gens}
 
+
+@st.composite
+def _cases(draw):
+    return _gen_from(draw(urandoms()))
+
+
+def fuzz_decode(fdp):
+    """coverage-guided tier: the same generator driven by fuzzer-chosen bytes (vf/core/fuzz_target.py)"""
+    from vf.model.rnd import FdpRandom
+    return _gen_from(FdpRandom(fdp))
 
 def strategy(tier):
     return _cases()
